@@ -390,7 +390,7 @@ pub fn run(ctx: &mut Ctx) -> (&'static str, String, bool) {
             }
         }
         // ---- random call sequences over all builder methods ------------------------------------------------
-        for _ in 0..ctx.tier.pick(3_000u64, 100_000u64) {
+        for _ in 0..ctx.tier.pick(20_000u64, 500_000u64) {
             let mut m = Model::default();
             let mut b = Builder::new();
             let n = r.usize_below(31);
@@ -405,7 +405,7 @@ pub fn run(ctx: &mut Ctx) -> (&'static str, String, bool) {
         p.sample(json!({"calls": ["Udp(false)", "Flag(3, true)", "Interval(Some(500))"], "expected": {"UDPPort": 0, "Flags": ["MCI"], "Interval": 500, "IName": "insim.rs"}}));
     }
     // ---- on the wire -------------------------------------------------------------------------------------------
-    let n_wire = if asan { 24 } else { ctx.tier.pick(40u64, 600u64) };
+    let n_wire = if asan { 200 } else { ctx.tier.pick(120u64, 2000u64) };
     let mut wire_ok = 0;
     for i in 0..n_wire {
         match check_wire(&c, &mut r, i % 2 == 0, &mut p) {
